@@ -252,8 +252,8 @@ impl Me {
         let (name, terminal) = match &evt {
             SupervisionEvent::ActorStarted(who) => (format!("(SStarted {})", self.ctx.index_of(who.get_id())), false),
             // the state flag is logged as delivered: always `false` for thread-local children
-            // (their state is not Send and is never boxed, thread_local/inner.rs); the local
-            // oracle check_C04_local (coq/Loop/LocalChecks.v) accounts for that, not this log
+            // (their state is not Send and is never boxed, thread_local/inner.rs); the oracle's
+            // locality argument (check_C04 links locals, coq/Loop/Checks.v) accounts for that, not this log
             SupervisionEvent::ActorTerminated(who, st, reason) => (
                 format!(
                     "(STerminated {} {} {})",
